@@ -283,7 +283,9 @@ func TestVerifC01Sync(t *testing.T) {
 				t.Fatal(err)
 			}
 			pc := newPcState(newProcessorContext(sn.bo, sn.exec, sn.state))
+			livePc := pc
 			offer := func(first, second *types.Block, kind string) {
+				pc := livePc
 				before := pc.height()
 				pc.queue = blockQueue{}
 				pc.handle(scBlockReceived{peerID: p2p.ID("P1"), block: first})
@@ -320,7 +322,60 @@ func TestVerifC01Sync(t *testing.T) {
 				first, second := blocks[h], blocks[h+1]
 				// forgeries first (none may be adopted), then the genuine pair
 				for tries := 0; tries < 3; tries++ {
-					switch r.Intn(9) {
+					switch r.Intn(10) {
+					case 9: // the validator set is about to change (NextValidators re-weighted, same members and
+						// order): precommits for an uncommitted block by validators holding <= 2/3 of the
+						// power that decides THIS height but > 2/3 of the next height's set. The commit for
+						// height h must be checked against the set of height h.
+						ctx, ok := pc.context.(*pContext)
+						if !ok {
+							break
+						}
+						S := map[int]bool{0: true, 1: true}
+						var sp int64
+						for i := range S {
+							sp += vals.Validators[i].VotingPower
+						}
+						if 3*sp > 2*total {
+							break
+						}
+						var nv []*types.Validator
+						for i, v := range vals.Validators {
+							pw := int64(400 - i)
+							if i == 0 {
+								pw = 4000
+							} else if i == 1 {
+								pw = 1600
+							}
+							nv = append(nv, types.NewValidator(v.Address, pw))
+						}
+						st2 := ctx.state.Copy()
+						st2.NextValidators = types.NewValidatorSet(nv)
+						sameOrder := st2.NextValidators.Size() == vals.Size()
+						for i := 0; sameOrder && i < vals.Size(); i++ {
+							sameOrder = st2.NextValidators.Validators[i].Address.Equal(vals.Validators[i].Address)
+						}
+						if !sameOrder {
+							o.Stat("sync.next-set-forgery.skipped-order")
+							break
+						}
+						hd := first.Header()
+						hd.GasLimit--
+						forged := types.NewBlock(hd, first.Transactions(), first.LastCommit(), first.Evidence().Evidence, trie.NewStackTrie(nil))
+						fid := types.BlockID{Hash: forged.Hash(), PartsHeader: forged.MakePartSet(types.BlockPartSizeBytes).Header()}
+						nils := map[int]bool{}
+						for i := 0; i < n; i++ {
+							if !S[i] {
+								nils[i] = true
+							}
+						}
+						livePc = newPcState(newProcessorContext(sn.bo, sn.exec, st2))
+						fcm := vfSyncCommitNil(vals, keyOf, chainID, h, uint32(1+r.Intn(2)), fid, S, nils)
+						if err := livePc.context.verifyCommit(chainID, fid, h, fcm); err == nil {
+							o.Viol("blocksync-commit-accepted-under-wrong-validator-set", fmt.Sprintf("%s height=%d: precommits of %d/%d of the power deciding this height accepted as a commit (they are +2/3 only of the NEXT height's re-weighted set)", desc, h, sp, total))
+						}
+						offer(forged, withCommit(second, fcm), "quorum-only-under-next-validator-set")
+						livePc = pc
 					case 7: // forged block signed by the faulty validators, glued to genuine NIL precommits of
 						// correct validators from a failed round: every signature verifies, more than 2/3
 						// of the power signed, less than 1/3 signed the block
